@@ -6,6 +6,7 @@ import CoapVerif.Lemmas.BlockSrcvHostile
 import CoapVerif.Lemmas.BlockXmit
 import CoapVerif.Lemmas.BlockRtag
 import CoapVerif.Lemmas.BlockNet
+import CoapVerif.Lemmas.BlockNetOnce
 import CoapVerif.Lemmas.BlockTok
 /-
 C09 — block-wise transfer: the sender's body arrives intact, once, or the transfer fails explicitly.
@@ -715,7 +716,8 @@ example :
 
 FULL statement (not proved): `never_wrong_body` / `at_most_once_per_transfer` for the composed system including
 everything the real endpoints do.  What is missing in the two theorems below: responses the APPLICATION builds when a
-follow-up Block2 request finds no lg_xmit, and bodies that fit one message (the models generate no message there); the
+follow-up Block2 request finds no lg_xmit, and RESPONSE bodies that fit one message (the Block2 model generates no message
+there; request bodies that fit one message are modelled since round R09); the
 computation of `adlBody`'s parameters on the response path (hypothesis `B2ParOK`, satisfied on the request path:
 `first_block_genuine`); per-block mode on the server; several transfers at once; retransmission timers, message ids and
 tokens (abstracted: the schedule picks any datagram ever sent, any number of times, in any order). -/
@@ -725,7 +727,8 @@ time-outs of the server's lg_xmit and of the client's lg_crcv at any moment, an 
 request) or only by the first response (CON), any number of lg_xmit incarnations (each
 with a fresh ETag, possibly with a different block size) — without ANY hypothesis on the datagrams: whatever the
 client's response handler is given is the server's body (single-body mode: exactly, with its exact length) or an
-exact slice of it at the announced offset (per-block mode), and a block response is never passed on as a plain one. -/
+exact slice of it at the announced offset (per-block mode), and a block response is never passed on as a plain one.
+Since round R09 every response arrival carries the `sent` flag of coap_handle_response_get_block (chosen by the schedule). -/
 theorem never_wrong_body_block2_composed_partial (P : B2Par) (hP : B2ParOK P) (evs : List B2Event) :
     ∀ o, o ∈ (evs.foldl (b2Step P) {}).outs →
       (∀ d l, o = CrcvOut.body d l → P.single = true ∧ d.take l = P.body ∧ l = P.body.length) ∧
@@ -781,16 +784,16 @@ example (single : Bool) : B2ParOK (exPar single) :=
 /-- a schedule with a duplicated response and a retransmitted request: three requests, one delivery (`+kernel`: the
 kernel evaluates the decision procedure directly; no axioms involved) -/
 example :
-    let evs : List B2Event := [.appGet 0, .reqArrives 0, .rspArrives 0, .reqArrives 1, .rspArrives 1, .rspArrives 1,
-      .reqArrives 1, .reqArrives 2, .rspArrives 3]
+    let evs : List B2Event := [.appGet 0, .reqArrives 0, .rspArrives 0 true, .reqArrives 1, .rspArrives 1 true, .rspArrives 1 true,
+      .reqArrives 1, .reqArrives 2, .rspArrives 3 true]
     let s := evs.foldl (b2Step (exPar true)) {}
     s.outs = [.next 1 0, .next 2 0, .skip, .body (exPar true).body 40] ∧ s.cli = none ∧ s.rsps.length = 4 := by
   decide +kernel
 
 /-- a duplicated FIRST request creates a second lg_xmit with a new ETag: the client restarts and still gets the body -/
 example :
-    let evs : List B2Event := [.appGet 0, .reqArrives 0, .reqArrives 0, .rspArrives 0, .rspArrives 1, .reqArrives 2,
-      .rspArrives 2, .reqArrives 3, .rspArrives 3, .reqArrives 4, .rspArrives 4]
+    let evs : List B2Event := [.appGet 0, .reqArrives 0, .reqArrives 0, .rspArrives 0 true, .rspArrives 1 true, .reqArrives 2,
+      .rspArrives 2 true, .reqArrives 3, .rspArrives 3 true, .reqArrives 4, .rspArrives 4 true]
     let s := evs.foldl (b2Step (exPar true)) {}
     s.outs = [.next 1 0, .restart 0, .next 1 0, .next 2 0, .body (exPar true).body 40] ∧ s.srvEtag = 3 := by
   decide +kernel
@@ -807,7 +810,8 @@ sizes (the client's initial one — only for block 0 — or the one the transfer
 size; the lg_xmit is well formed (`XmitInv`) in one of the two sizes; the lg_srcv is consistent with the body (`SrcvInv`)
 and tracks it in the settled size.  So the hypotheses of `never_wrong_body_partial` (slice, SZX not below the tracked
 one) and of `client_block1_genuine_partial` (no larger size asked for) are discharged.
-Not in the model (see the section header): bodies that fit one message, two lg_srcvs at once (`request_tag_…`), per-block
+Since round R09 a body that fits ONE message is in the model too (`adlNoBlock`; `ReqOK` = `ReqBlk` ∨ `ReqSingle`).
+Still not in the model, hence still `_partial` (see the section header): two lg_srcvs at once (`request_tag_…`), per-block
 mode on the server, timers / message ids / tokens; body < 2^31 bytes. -/
 theorem never_wrong_body_block1_composed_partial (P : B1Par) (hP : B1ParOK P) (evs : List B1Event) :
     ∀ o, o ∈ (evs.foldl (b1Step P) {}).outs → ∀ b l, o = SrcvOut.deliver b l → b = P.body ∧ l = P.body.length :=
@@ -832,6 +836,274 @@ example :
       [(0, 1, 2, 64), (2, 1, 1, 32), (3, 1, 1, 32), (4, 1, 1, 32), (5, 1, 1, 32), (6, 0, 1, 8)] ∧
     s.outs.getLast? = some (SrcvOut.deliver exPar1.body 200) ∧ s.srv = none ∧
     (s.outs.filter (fun o => match o with | .deliver _ _ => true | _ => false)).length = 1 := by
+  decide +kernel
+
+/-! ### RUN-level "at most once" for the composed Block1 system, with a ghost history (Lemmas/BlockNetOnce.lean)
+
+`b1StepG` = `b1Step` plus the ghost `g`: the request datagrams the server's lg_srcv has processed since the server last had
+NO lg_srcv (the epoch; emptied by every release: delivery, 4.08, time-out).  "At most one delivery per PUT event" is FALSE
+of the code — and not demanded by RFC 7959: once the lg_srcv is released a replay of the complete datagram sequence is a
+new transfer (SPEC DECISION D6; witness below: one PUT, two deliveries).  What holds, for EVERY schedule: -/
+
+/-- Along EVERY schedule of the composed Block1 system (any loss / duplication / replay / reordering of any datagram,
+repeated PUTs, time-outs on either side, single-message bodies included), whenever a request arrival makes the server hand a
+body to the application: it is the client's body, with its exact length, and EVERY byte of it was carried — for exactly that
+offset — by a request datagram that arrived in the CURRENT epoch, i.e. after the lg_srcv was last released (`SentIn1` over
+the ghost).  A block-wise delivery releases the lg_srcv and empties the epoch.  So the number of deliveries is at most the
+number of times a complete set of blocks was received after the previous delivery / release, and nothing received before can
+be used again.  Hypothesis `hN`: the body is addressable with a 20-bit NUM in the settled block size. -/
+theorem at_most_once_block1_run (P : B1Par) (hP : B1ParOK P) (hN : nBlocks P.body.length (b1S P) ≤ 2 ^ 20)
+    (evs : List B1Event) (i : Nat) (d : Req1) :
+    let sg := evs.foldl (b1StepG P) ({}, [])
+    sg.1.reqs[i]? = some d →
+    ∀ b l, (srcvStep P.cap P.junk P.maxBlk sg.1.srv d.num d.m d.szx d.payload d.size1).2 = SrcvOut.deliver b l →
+      (b = P.body ∧ l = P.body.length) ∧
+      (∀ o, o < P.body.length → ∃ v, P.body[o]? = some v ∧ SentIn1 (d.dgram :: sg.2) o v) ∧
+      (¬ (d.num = 0 ∧ d.m = 0) →
+        (b1StepG P sg (B1Event.reqArrives i)).1.srv = none ∧ (b1StepG P sg (B1Event.reqArrives i)).2 = []) := by
+  intro sg hq b l hb
+  obtain ⟨hinv, hgh⟩ := b1RunG_inv P hP hN evs ({}, []) (b1_init_inv P) (b1_init_ghost P)
+  have hd := hinv.req d (List.mem_of_getElem? hq)
+  obtain ⟨e1, e2⟩ := b1Step_req P sg.1 i d hq
+  have hbl : b = P.body ∧ l = P.body.length := by
+    have hnext := b1Step_inv P hP sg.1 (B1Event.reqArrives i) hinv
+    exact hnext.outs _ (by rw [e2]; exact List.mem_append_right _ List.mem_cons_self) b l hb
+  obtain ⟨_, k2⟩ := b1Req_ghost P hN sg.1 sg.2 d hd hgh
+  obtain ⟨_, k4⟩ := k2 b l hb
+  refine ⟨hbl, ?_, ?_⟩
+  · intro o ho
+    rw [hbl.1, hbl.2] at k4
+    exact k4 o ho
+  · intro hn
+    have hrel : (b1StepG P sg (B1Event.reqArrives i)).1.srv = none := by
+      show (b1Step P sg.1 (B1Event.reqArrives i)).srv = none
+      rw [e1]
+      rcases hd with hblk | ⟨q1, q2, _⟩
+      · exact b1Req_release P hP sg.1 d hinv hblk b l hb hn
+      · exact (hn ⟨q1, q2⟩).elim
+    exact ⟨hrel, (b1StepG_ghost P hN sg (B1Event.reqArrives i) hinv hgh).empty hrel⟩
+
+/-- … hence a delivery needs block 0 to have arrived in the current epoch: whatever was received before the last release,
+a replay of datagrams none of which carries NUM 0 — the LAST block alone, the last k blocks, any duplicates of them in any
+order — never makes the server call the application. -/
+theorem block1_replay_without_block0_never_delivers (P : B1Par) (hP : B1ParOK P)
+    (hN : nBlocks P.body.length (b1S P) ≤ 2 ^ 20) (evs : List B1Event) (i : Nat) (d : Req1) :
+    let sg := evs.foldl (b1StepG P) ({}, [])
+    sg.1.reqs[i]? = some d → (∀ d', d' ∈ d.dgram :: sg.2 → d'.num ≠ 0) →
+    ∀ b l, (srcvStep P.cap P.junk P.maxBlk sg.1.srv d.num d.m d.szx d.payload d.size1).2 ≠ SrcvOut.deliver b l := by
+  intro sg hq hno b l hb
+  obtain ⟨hinv, _⟩ := b1RunG_inv P hP hN evs ({}, []) (b1_init_inv P) (b1_init_ghost P)
+  obtain ⟨_, hall, _⟩ := at_most_once_block1_run P hP hN evs i d hq b l hb
+  have hpos : 0 < P.body.length := by
+    rcases hinv.req d (List.mem_of_getElem? hq) with ⟨_, g2, _⟩ | ⟨q1, _, _⟩
+    · have := (lt_nBlocks_iff P.body.length d.szx d.num).mp g2
+      omega
+    · exact (hno d.dgram List.mem_cons_self q1).elim
+  obtain ⟨v, _, d', hd', hle, _⟩ := hall 0 hpos
+  have h2 : 0 < 2 ^ (d'.szx + 4) := Nat.two_pow_pos _
+  have h0 : d'.num = 0 := by
+    cases hn : d'.num with
+    | zero => rfl
+    | succ n =>
+      rw [hn] at hle
+      have h3 : 2 ^ (d'.szx + 4) ≤ (n + 1) * 2 ^ (d'.szx + 4) := Nat.le_mul_of_pos_left (2 ^ (d'.szx + 4)) (Nat.succ_pos n)
+      omega
+  exact hno d' hd' h0
+
+/-- the case asked for: the server holds no lg_srcv (the transfer was delivered, failed or timed out) and a datagram other
+than block 0 arrives — a replayed last block in particular: the application is not called. -/
+theorem block1_replayed_last_block_never_delivers (P : B1Par) (hP : B1ParOK P)
+    (hN : nBlocks P.body.length (b1S P) ≤ 2 ^ 20) (evs : List B1Event) (i : Nat) (d : Req1) :
+    let s := evs.foldl (b1Step P) {}
+    s.reqs[i]? = some d → s.srv = none → d.num ≠ 0 →
+    ∀ b l, (srcvStep P.cap P.junk P.maxBlk s.srv d.num d.m d.szx d.payload d.size1).2 ≠ SrcvOut.deliver b l := by
+  intro s hq hnone hnum
+  have hfst := b1StepG_fst P evs ({}, [])
+  obtain ⟨_, hgh⟩ := b1RunG_inv P hP hN evs ({}, []) (b1_init_inv P) (b1_init_ghost P)
+  have hs : (evs.foldl (b1StepG P) ({}, [])).1 = s := hfst
+  have hemp := hgh.empty (by rw [hs]; exact hnone)
+  have := block1_replay_without_block0_never_delivers P hP hN evs i d (by rw [hs]; exact hq)
+    (by
+      intro d' hd'
+      rw [hemp, List.mem_singleton] at hd'
+      rw [hd']
+      exact hnum)
+  rw [hs] at this
+  exact this
+
+/-- `hN` is satisfiable: 200 bytes in 32-byte blocks are 7 blocks -/
+example : nBlocks exPar1.body.length (b1S exPar1) ≤ 2 ^ 20 := by decide +kernel
+
+/-- WITNESS that "at most one delivery per PUT" is not what the code does (D6): ONE PUT; after the delivery the complete
+sequence of request datagrams is replayed and the server — which has released its lg_srcv — delivers the body again; a
+replay of the last block alone (`reqArrives 5` at the end) does not. -/
+example :
+    let first : List B1Event := [.appPut, .reqArrives 0, .rspArrives 0, .reqArrives 1, .rspArrives 1, .reqArrives 2,
+      .rspArrives 2, .reqArrives 3, .rspArrives 3, .reqArrives 4, .rspArrives 4, .reqArrives 5]
+    let replay : List B1Event := [.reqArrives 0, .reqArrives 1, .reqArrives 2, .reqArrives 3, .reqArrives 4, .reqArrives 5]
+    let isD : SrcvOut → Bool := fun o => match o with | .deliver _ _ => true | _ => false
+    ((first.foldl (b1Step exPar1) {}).outs.filter isD).length = 1 ∧
+    (((first ++ replay).foldl (b1Step exPar1) {}).outs.filter isD).length = 2 ∧
+    (((first ++ replay ++ [B1Event.reqArrives 5]).foldl (b1Step exPar1) {}).outs.filter isD).length = 2 ∧
+    (((first ++ [B1Event.reqArrives 5, B1Event.reqArrives 4, B1Event.reqArrives 5]).foldl (b1Step exPar1) {}).outs.filter isD).length = 1 ∧
+    ((first ++ replay).foldl (b1StepG exPar1) ({}, [])).2 = [] := by
+  decide +kernel
+
+/-- single-message bodies in the composed system (`adlNoBlock`: no lg_xmit, no Size1, Block1 absent): 40 bytes in one
+message; every arrival of that datagram is a request of its own (D6) and hands over exactly the body -/
+def exPar1s : B1Par := { exPar1 with body := (List.range 40).map (fun i => UInt8.ofNat i), blk := none }
+
+example :
+    let s := [B1Event.appPut, .reqArrives 0, .reqArrives 0].foldl (b1Step exPar1s) {}
+    s.reqs.map (fun d => (d.num, d.m, d.szx, d.payload.length, d.size1)) = [(0, 0, 0, 40, none)] ∧ s.cli = none ∧
+    s.outs = [.deliver exPar1s.body 40, .deliver exPar1s.body 40] ∧ s.srv = none := by
+  decide +kernel
+
+/-! ### RUN-level "at most once" for the composed Block2 system (single-body mode), with a ghost history
+
+`b2StepG` = `b2Step` plus the ghost `g`: the response datagrams the client's lg_crcv has processed since it was last absent
+or (re-)initialised (`initial`: set up by coap_send(), or restarted after an ETag change).  The event `rspArrives j sent` now
+carries the `sent` argument of coap_handle_response_get_block (`crcvStepS`): whether coap_dispatch matched the datagram to a
+Confirmable request still in the send queue.  The schedule picks it freely, so every behaviour of the message layer is
+covered; what the message layer guarantees (a copy of a response whose request has already been answered is NOT matched)
+is outside this model and trace-checked (`xfer` logs the flag). -/
+
+/-- Along EVERY schedule of the composed Block2 system in single-body mode (any loss / duplication / replay / reordering,
+repeated GETs, several lg_xmit incarnations with different ETags and block sizes, time-outs on either side, every choice of
+`sent`), whenever a response arrival makes the client hand a body to the response handler: it is the server's body with its
+exact length, and EVERY byte of it was carried — for exactly that offset — by a response that arrived in the CURRENT epoch,
+i.e. after the lg_crcv was last set up or restarted; the delivery releases the lg_crcv and empties the epoch.  So the number
+of deliveries is at most the number of lg_crcv lifetimes in which a complete set of block responses arrived. -/
+theorem at_most_once_block2_run (P : B2Par) (hP : B2ParOK P) (hs : P.single = true) (evs : List B2Event) (j : Nat)
+    (sent : Bool) (r : Resp) :
+    let sg := evs.foldl (b2StepG P) ({}, [])
+    sg.1.rsps[j]? = some r →
+    ∀ d l, (crcvStepS sent P.single P.cap P.junk sg.1.cli r).2 = CrcvOut.body d l →
+      (d.take l = P.body ∧ l = P.body.length) ∧
+      (∀ o, o < P.body.length → ∃ v, P.body[o]? = some v ∧ SentIn (r :: sg.2) o v) ∧
+      (b2StepG P sg (B2Event.rspArrives j sent)).1.cli = none ∧ (b2StepG P sg (B2Event.rspArrives j sent)).2 = [] := by
+  intro sg hq d l hb
+  obtain ⟨hinv, hgh⟩ := b2RunG_inv P hP hs evs ({}, []) (b2_init_inv P) (b2_init_ghost P)
+  obtain ⟨e1, e2⟩ := b2Step_rsp P sg.1 j sent r hq
+  have hbl : d.take l = P.body ∧ l = P.body.length := by
+    have hnext := b2Step_inv P hP sg.1 (B2Event.rspArrives j sent) hinv
+    exact ((hnext.outs _ (by rw [e2]; exact List.mem_append_right _ List.mem_cons_self)).1 d l hb).2
+  have hb' : (crcvStepS sent true P.cap P.junk sg.1.cli r).2 = CrcvOut.body d l := by rw [← hs]; exact hb
+  obtain ⟨_, k2⟩ := b2Rsp_ghost P.cap P.junk sent sg.1.cli sg.2 r hgh.h
+  obtain ⟨k3, k4⟩ := k2 d l hb'
+  have hrel : (b2StepG P sg (B2Event.rspArrives j sent)).1.cli = none := by
+    show (b2Step P sg.1 (B2Event.rspArrives j sent)).cli = none
+    rw [e1]
+    exact crcvStepS_final_none _ _ _ _ _ _ (by rw [hb]; rfl)
+  refine ⟨hbl, ?_, hrel, ?_⟩
+  · intro o ho
+    obtain ⟨v, h1, h2⟩ := k4 o (by rw [hbl.2]; exact ho)
+    refine ⟨v, ?_, h2⟩
+    rw [← hbl.1, List.getElem?_take, if_pos (by rw [hbl.2]; exact ho)]
+    exact h1
+  · exact (b2StepG_ghost P hs sg (B2Event.rspArrives j sent) hgh).empty
+      (by intro c hc; rw [hrel] at hc; cases hc)
+
+/-- … hence a delivery needs block 0 to have arrived in the current epoch: replays of block responses none of which is
+block 0 (the LAST block in particular) never deliver, whatever was received in earlier lifetimes. -/
+theorem block2_replay_without_block0_never_delivers (P : B2Par) (hP : B2ParOK P) (hs : P.single = true)
+    (evs : List B2Event) (j : Nat) (sent : Bool) (r : Resp) :
+    let sg := evs.foldl (b2StepG P) ({}, [])
+    sg.1.rsps[j]? = some r → (∀ r', r' ∈ r :: sg.2 → numOf r' ≠ 0) →
+    ∀ d l, (crcvStepS sent P.single P.cap P.junk sg.1.cli r).2 ≠ CrcvOut.body d l := by
+  intro sg hq hno d l hb
+  obtain ⟨hinv, _⟩ := b2RunG_inv P hP hs evs ({}, []) (b2_init_inv P) (b2_init_ghost P)
+  obtain ⟨_, hall, _⟩ := at_most_once_block2_run P hP hs evs j sent r hq d l hb
+  obtain ⟨num, szx, k, g1, g2, _⟩ := hinv.rsp r (List.mem_of_getElem? hq)
+  have hpos : 0 < P.body.length := by
+    have := (lt_nBlocks_iff P.body.length szx num).mp g2
+    omega
+  obtain ⟨v, _, r', hr', n', m', s', hb', hle, _⟩ := hall 0 hpos
+  have h2 : 0 < 2 ^ (s' + 4) := Nat.two_pow_pos _
+  have h0 : n' = 0 := by
+    cases hn : n' with
+    | zero => rfl
+    | succ n =>
+      rw [hn] at hle
+      have h3 : 2 ^ (s' + 4) ≤ (n + 1) * 2 ^ (s' + 4) := Nat.le_mul_of_pos_left (2 ^ (s' + 4)) (Nat.succ_pos n)
+      omega
+  exact hno r' hr' (by unfold numOf; rw [hb', h0])
+
+/-- "At most once per GET" as far as the block layer can guarantee it: once the client holds no lg_crcv (the body was
+handed over, the transfer failed or timed out), NOTHING reaches the response handler and no lg_crcv appears along any
+continuation in which the application sends no new request with an lg_crcv (`cliNew`) and no response is matched to a request
+still queued — replays of ANY response datagrams (block 0, the last block, whole sequences, of any lg_xmit incarnation), in any
+number and order, requests and time-outs in between, included.  Both delivery modes. -/
+theorem block2_replays_after_completion_dropped (P : B2Par) (hP : B2ParOK P) (evs evs2 : List B2Event) :
+    let s := evs.foldl (b2Step P) {}
+    s.cli = none → (∀ e, e ∈ evs2 → e.unsolicited = true) →
+    (evs2.foldl (b2Step P) s).cli = none ∧ ∀ o, o ∈ (evs2.foldl (b2Step P) s).outs → o ∈ s.outs ∨ o = CrcvOut.skip := by
+  intro s hc hu
+  exact b2_unsolicited_run P hP evs2 s (b2Run_inv P hP evs {} (b2_init_inv P)) hc hu
+
+/-- the run of the first example continued: every response datagram replayed (unmatched) after the delivery, block 0 and
+the last block twice — only `skip`s are added, still one delivery, no lg_crcv; and the ghost along the run -/
+example :
+    let evs : List B2Event := [.appGet 0, .reqArrives 0, .rspArrives 0 true, .reqArrives 1, .rspArrives 1 true,
+      .reqArrives 2, .rspArrives 2 true]
+    let replay : List B2Event := [.rspArrives 0 false, .rspArrives 2 false, .rspArrives 1 false, .rspArrives 2 false,
+      .rspArrives 0 false]
+    let s := (evs ++ replay).foldl (b2Step (exPar true)) {}
+    s.outs = [.next 1 0, .next 2 0, .body (exPar true).body 40, .skip, .skip, .skip, .skip, .skip] ∧ s.cli = none ∧
+    (replay.all fun e => e.unsolicited) = true ∧
+    (((evs.take 5).foldl (b2StepG (exPar true)) ({}, [])).2.map numOf) = [1, 0] ∧
+    (evs.foldl (b2StepG (exPar true)) ({}, [])).2 = [] := by
+  decide +kernel
+
+/-- WITNESS that the `sent` flag matters (and why "once per GET" needs the message layer): a copy of block 0 that IS
+matched to a queued request after the transfer completed sets up a new lg_crcv — a new transfer, second delivery (D6) -/
+example :
+    let evs : List B2Event := [.appGet 0, .reqArrives 0, .rspArrives 0 true, .reqArrives 1, .rspArrives 1 true,
+      .reqArrives 2, .rspArrives 2 true, .rspArrives 0 true, .rspArrives 1 true, .rspArrives 2 true]
+    ((evs.foldl (b2Step (exPar true)) {}).outs.filter fun o => o.isFinal).length = 2 := by
+  decide +kernel
+
+/-- PER-BLOCK mode, composed system, EVERY schedule (ghost `seen` = the block numbers handed to the response handler since
+the client's lg_crcv was last set up or restarted, `b2StepS`; it is exactly the set the lg_crcv has recorded, `B2SeenInv`):
+a block handed to the handler was not handed over before in this lifetime — duplicates and replays of any response datagram,
+of any lg_xmit incarnation, matched or not, never reach the handler twice — and when the completing block is handed over every
+other block of the body has been: per lifetime the handler gets each block at most once and, at completion, all of them.
+No hypothesis on the datagrams (`per_block_tiles_once_partial` needed `Admissible2`; `B2Inv` supplies it here). -/
+theorem per_block_tiles_once_composed (P : B2Par) (hP : B2ParOK P) (hs : P.single = false) (evs : List B2Event) (j : Nat)
+    (sent : Bool) (r : Resp) :
+    let ss := evs.foldl (b2StepS P) ({}, [])
+    ss.1.rsps[j]? = some r →
+    (∀ off p t nx, (crcvStepS sent P.single P.cap P.junk ss.1.cli r).2 = CrcvOut.block off p t nx → numOf r ∉ ss.2) ∧
+    (∀ off p t, (crcvStepS sent P.single P.cap P.junk ss.1.cli r).2 = CrcvOut.last off p t →
+      numOf r ∉ ss.2 ∧ ∀ k, k < nBlocks P.body.length (szxOfR r) → k = numOf r ∨ k ∈ ss.2) := by
+  intro ss hq
+  obtain ⟨hinv, hG⟩ := b2RunS_inv P hP hs evs ({}, []) (b2_init_inv P)
+    (by intro k; simp [effRecv, covers_nil])
+  rw [hs]
+  rcases crcvStepS_cases sent false P.cap P.junk ss.1.cli r with he | ⟨_, _, he⟩
+  · rw [he]
+    obtain ⟨num, szx, hg⟩ := b2_genuine P ss.1 r (List.mem_of_getElem? hq) hinv
+    have hst : ∀ c, ss.1.cli = some c → c.initial = false → CrcvInv false P.cap P.body (some P.body.length) c := by
+      intro c hc hi
+      have := (hinv.cli c hc hi).1
+      rw [hs] at this
+      exact this
+    obtain ⟨a, b, _⟩ := tiles_step P.cap P.junk P.body (some P.body.length) (by intro t ht; cases ht; exact Nat.le_refl _)
+      ss.1.cli ss.2 r num szx hst hG hg
+    exact ⟨a, b⟩
+  · rw [he]
+    cases r.blk with
+    | none => exact ⟨fun _ _ _ _ h => (by cases h), fun _ _ _ h => (by cases h)⟩
+    | some b => exact ⟨fun _ _ _ _ h => (by cases h), fun _ _ _ h => (by cases h)⟩
+
+/-- the ghost along a concrete per-block run: block 1 duplicated, then a stray unmatched copy of block 0 after completion -/
+example :
+    let evs : List B2Event := [.appGet 0, .reqArrives 0, .rspArrives 0 true, .reqArrives 1, .rspArrives 1 true,
+      .rspArrives 1 false]
+    let s := (evs ++ [B2Event.reqArrives 2, B2Event.rspArrives 2 true, B2Event.rspArrives 0 false]).foldl (b2StepS (exPar false)) ({}, [])
+    (evs.foldl (b2StepS (exPar false)) ({}, [])).2 = [1, 0] ∧ s.2 = [] ∧ s.1.cli = none ∧
+    s.1.outs.map (fun o => match o with | CrcvOut.block off _ _ _ => off + 1 | CrcvOut.last off _ _ => off + 1 | _ => 0) =
+      [1, 17, 0, 33, 0] := by
   decide +kernel
 
 /-! ## Client: what the application's handlers see of a transfer libcoap runs under tokens of its own
